@@ -903,10 +903,11 @@ func genPeeringWrite(g *fullGen) *built {
 	if g.chance(30) {
 		p.ID = ""
 	}
-	if g.chance(20) {
-		// same name, other id (an ID that is in use under another name makes the FSM dereference a nil
-		// peering in its error message -- see the final report; the generator stays clear of it)
-		p.ID = "cccc3333-0000-0000-0000-00000000000" + map[string]string{"peer-a": "a", "peer-b": "b"}[name]
+	if g.chance(7) {
+		// same name, other id -- and, since the id is shared by both names, sometimes an ID that is in use
+		// under another name (rejected with an error since 202ac2a; before it the FSM dereferenced a nil
+		// peering while formatting that error)
+		p.ID = "cccc3333-0000-0000-0000-000000000003"
 	}
 	req := &pbpeering.PeeringWriteRequest{Peering: p}
 	if g.chance(3) && p.ID != "" {
